@@ -30,13 +30,15 @@ pub struct Case {
     pub save_channel: String,
     /// shim plan on the compile stage's output fd (transient only); a reported error means no image, no claim
     pub save_plan: String,
+    /// a stale, longer file already sits at the `-o` path before the save (durable state of an earlier run)
+    pub stale: bool,
     pub hash_seed: u64,
 }
 
 impl Case {
     pub fn to_json(&self) -> Value {
         json!({"engine": ENGINE, "property": self.property, "program": self.spec.to_json(), "profile": self.profile.name(), "writer": self.writer,
-               "action": self.action, "via_stdin": self.via_stdin, "plan": self.plan, "save_channel": self.save_channel, "save_plan": self.save_plan, "hash_seed": self.hash_seed})
+               "action": self.action, "via_stdin": self.via_stdin, "plan": self.plan, "save_channel": self.save_channel, "save_plan": self.save_plan, "stale": self.stale, "hash_seed": self.hash_seed})
     }
     pub fn from_json(v: &Value) -> Option<Case> {
         Some(Case {
@@ -49,6 +51,7 @@ impl Case {
             plan: v.get("plan")?.as_str()?.to_string(),
             save_channel: v.get("save_channel").and_then(|x| x.as_str()).unwrap_or("-o FILE").to_string(),
             save_plan: v.get("save_plan").and_then(|x| x.as_str()).unwrap_or("").to_string(),
+            stale: v.get("stale").and_then(|x| x.as_bool()).unwrap_or(false),
             hash_seed: v.get("hash_seed")?.as_u64()?,
         })
     }
@@ -81,6 +84,13 @@ pub fn check(case: &Case) -> Result<Option<Obs>, (String, String)> {
     } else {
         let json = match crate::ASTSerializer::JSON.serialize(&ast) { Ok(j) => j, Err(_) => { cleanup(&dir); return Ok(None); } };
         std::fs::write(dir.join("x.json"), json).unwrap();
+        if case.stale && case.save_channel == "-o FILE" {
+            let old = vm::serialize_to_vec(&program).unwrap_or_default();
+            let mut junk = old.clone();
+            junk.extend_from_slice(&old);
+            junk.extend_from_slice(b"stale tail of an earlier, longer image");
+            std::fs::write(dir.join("x.bc"), junk).unwrap();
+        }
         let mut c = if case.save_channel == "-o FILE" { Child::new(case.profile, &["compile", "x.json", "-o", "x.bc"]) } else { Child::new(case.profile, &["compile", "x.json"]) };
         if case.save_channel == "stdout>file" { c.stdout = super::proc::Out::File("x.bc".into()); }
         c.shim = Some(ShimCfg { seed: case.hash_seed, plan: case.save_plan.clone(), clock: None, junk: 0, budget: Some(4_000_000) });
@@ -154,6 +164,7 @@ fn minimise(case: &Case, oracle: &str) -> Case {
     let mut best = case.clone();
     if !best.plan.is_empty() { let mut c = best.clone(); c.plan = String::new(); if still(&c) { best = c; } }
     if !best.save_plan.is_empty() { let mut c = best.clone(); c.save_plan = String::new(); if still(&c) { best = c; } }
+    if best.stale { let mut c = best.clone(); c.stale = false; if still(&c) { best = c; } }
     if best.save_channel != "-o FILE" { let mut c = best.clone(); c.save_channel = "-o FILE".into(); if still(&c) { best = c; } }
     if best.via_stdin { let mut c = best.clone(); c.via_stdin = false; if still(&c) { best = c; } }
     if let ProgSpec::Stmts(stmts) = &best.spec {
@@ -202,6 +213,7 @@ pub fn run_layer_b(property: &str, seed: u64, tier: &str, ev: &mut Evidence) -> 
             plan,
             save_channel: (*rng.pick(&["-o FILE", "-o FILE", "stdout>file", "stdout|pipe"])).to_string(),
             save_plan: String::new(),
+            stale: rng.below(4) == 0,
             hash_seed: rng.next_u64(),
         };
         let mut case = case;
